@@ -28,8 +28,14 @@ def gen_program(rng):
 def run(ctx):
     # Tier B: MSQueue.tla (enqueue / do_dequeue, one label per atomic access, ghost abstract queue; a plain store instead of the link CAS must fail)
     vlib.model_check_many(ctx, [dict(module_rel="queue/MSQueueMC.tla", cfg_rel="queue/MSQueue_q.cfg" if ctx.quick() else "queue/MSQueue_t.cfg", workers=6, timeout=3000),
-                                dict(module_rel="queue/MSQueueMC.tla", cfg_rel="queue/MSQueue_bad_blindlink.cfg", workers=2, expect_violation="ListIsQueue")] +
-                               ([] if ctx.quick() else [dict(module_rel="queue/MSQueueMC.tla", cfg_rel="queue/MSQueue_notailcheck.cfg", workers=8, timeout=3000)]), par=3)
+                                dict(module_rel="queue/MSQueueMC.tla", cfg_rel="queue/MSQueue_bad_blindlink.cfg", workers=2, expect_violation="ListIsQueue"),
+                                # OptQueue.tla (OptimisticQueue: optimistic prev links, fix_list); refuted: seeded change C06 (prev stored before the tail CAS), no fix_list
+                                dict(module_rel="queue/OptQueueMC.tla", cfg_rel="queue/OptQueue_q.cfg", workers=2),
+                                dict(module_rel="queue/OptQueueMC.tla", cfg_rel="queue/OptQueue_q3.cfg", workers=4),
+                                dict(module_rel="queue/OptQueueMC.tla", cfg_rel="queue/OptQueue_bad_prevbeforecas.cfg", workers=2, expect_violation="LinOK"),
+                                dict(module_rel="queue/OptQueueMC.tla", cfg_rel="queue/OptQueue_bad_nofix.cfg", workers=2, expect_violation="LinOK")] +
+                               ([] if ctx.quick() else [dict(module_rel="queue/MSQueueMC.tla", cfg_rel="queue/MSQueue_notailcheck.cfg", workers=8, timeout=3000),
+                                                        dict(module_rel="queue/OptQueueMC.tla", cfg_rel="queue/OptQueue_q3b.cfg", workers=4, timeout=3000)]), par=4)
     progs = list(PROGRAMS) + [gen_program(ctx.rng) for _ in range(1 if ctx.quick() else 6)]
     jobs = make_jobs(ctx, "queue", VARIANTS, progs)
     vlib.run_jobs(ctx, jobs)
